@@ -872,6 +872,7 @@ class FnTr:
         if braces:
             self.emit('{')
             self.ind += 1
+        self.body_start()
         self.live.append([])
         for s in kids(n):
             self.stmt(s)
@@ -888,6 +889,7 @@ class FnTr:
         else:
             self.emit('{')
             self.ind += 1
+            self.body_start()
             self.live.append([])
             self.stmt(n)
             for vid in self.live.pop():
@@ -897,9 +899,17 @@ class FnTr:
             self.emit('}')
 
     def loop_contract(self):
+        # clauses starting with '@@' are ghost statements for the start of the loop body (instances of quantified
+        # preconditions, bin/bsv.py 'axiom'); they are emitted by the next block that opens
         self.loop_no += 1
-        lc = self.contracts.get('loop%d' % self.loop_no)
-        return lc or []
+        lc = self.contracts.get('loop%d' % self.loop_no) or []
+        self.pending_body_start = [c[2:] for c in lc if c.startswith('@@')]
+        return [c for c in lc if not c.startswith('@@')]
+
+    def body_start(self):
+        for c in getattr(self, 'pending_body_start', None) or []:
+            self.emit(c)
+        self.pending_body_start = []
 
     def stmt(self, n):
         k = n['kind']
@@ -1070,6 +1080,8 @@ class FnTr:
             self.emit('  ' + cl.replace('$i', iv))
         self.emit('{')
         self.ind += 1
+        self.pending_body_start = [c.replace('$i', iv) for c in self.pending_body_start]
+        self.body_start()
         self.live.append([])
         lvt = parse_type(qt(loopvar))
         if lvt.ref:
